@@ -13,8 +13,13 @@ func init() {
 			{Name: "cache-concurrent", Pkg: "planner", Files: []string{"planner/c14.go"}, Entry: "VerifCacheConcurrent", Mode: "all", Race: true,
 				Reach:     []string{"concurrent plans"},
 				Functions: []string{"planner.(*CachedPlanner).Plan", "planner.(*CachedPlanner).clean"}},
+			{Name: "subscriptions-on-cached-plan", Pkg: ".", Files: []string{"root/fed.go", "root/c01.go", "root/ws.go", "root/c17.go"}, Entry: "VerifEvents", Mode: "seq",
+				Quick: map[string]int{"cached": 1, "maxsubs": 2, "maxevents": 1, "quickmerge": 0}, Thorough: map[string]int{"cached": 1, "maxsubs": 2, "maxevents": 2, "quickmerge": 0},
+				Reach: []string{"two subscriptions", "events checked"}, Known: []string{"C14-subscription-strips-cached-plan"},
+				Functions: []string{"(*Gateway).newSubscriptionEntry", "planner.(*CachedPlanner).Plan", "(*subscriptionEntry).Listen", "(*subscriptionEntry).prepareResponse"}},
 		},
 		Assume: []string{
+			"subscriptions-on-cached-plan: the C17 event kernel (websocket model, canonical schedule) with the caching planner installed",
 			"time.Now is a symbolic monotone clock (every reading >= the previous one); TTL in {0, 1, 10} ns",
 			"gqlparser runs natively on the concrete operation strings of the pool; sha1 runs natively on concrete input",
 			"engine's model of sync.RWMutex; happens-before race detector on the two cache maps",
